@@ -8,6 +8,10 @@ Correspondence (real code in-process vs lean/GlotaranModel/C05.lean):
     parallel / sequential / general decay megacomplexes with Gaussian, multi-Gaussian and spectral IRFs, the
     numba kernel `calculate_decay_matrix_gaussian_irf_on_index` itself (back-sweep, both branches, the
     switch-over), `Irf.calculate`.
+  * refused specifications (zero width, normalize with scales summing to zero, empty global axis): the exception classes;
+  * the result variables of `retrieve_irf` (exact regime) and of a one-evaluation `optimize` (irf, irf_shift,
+    irf_center_location, center_dispersion_1), also against the specification (oracle_reported_irf / _locations).
+Tie by regeneration: `generate` rewrites Generated/C05Fns.lean and Generated/C05Irf.lean from the source (see _c05_translate.py).
 Oracle (independent of the model and of every closed form): the defining convolution integral
 int_0^inf exp(-k s) g(t - s) ds by Gauss-Legendre quadrature, with the effective centre / width of each
 index computed from the specification as the property states it.
@@ -40,15 +44,22 @@ REQUIRED_THEOREMS = [
     "generated_no_irf_eq_model", "generated_kernel_eq_model_on_index", "generated_kernel_eq_model_all_indices",
     "generated_glue_indep_eq_model", "generated_glue_dep_eq_model",
     "is_index_dependent_generated_eq_model", "dispersion_dist_generated_eq_model", "parameter_generated_eq_model",
+    # method level (Generated/C05Irf.lean): base-class parameter, calculate, calculate_dispersion, calculate_matrix, retrieve_irf
+    "generated_base_parameter_eq_model", "generated_irf_calculate_eq_model", "generated_calculate_dispersion_eq_model",
+    "generated_index_dependent_eq_model", "generated_calculate_matrix_eq_model", "generated_retrieve_irf_eq_model",
+    # what the compiled code refuses (zero width, zero sum of scales, empty global axis); the reported IRF trace
+    "checked_ok_refines", "zero_scale_sum_never_a_matrix", "zero_width_raises_partial", "zero_width_raises_counterexample",
+    "reported_irf_is_used_irf",
 ]
 TRUSTED = [
-    "translator harness/props/_c05_translate.py (Python ast -> Lean functions of Generated/C05Fns.lean, regenerated on every run) "
-    "and its fixed vocabulary lean/GlotaranModel/C05Rt.lean (forRange, matUpd, slabUpd, forRangeM, bindE, enumFold); the "
+    "translator harness/props/_c05_translate.py (Python ast -> Lean functions of Generated/C05Fns.lean and Generated/C05Irf.lean, "
+    "regenerated on every run) and its fixed vocabulary lean/GlotaranModel/C05Rt.lean (forRange, matUpd, slabUpd, forRangeM, bindE, "
+    "enumFold; listGet, needIndex, optValue, zerosOfShape, Matrix.matmul, callDep / callIndep, onGlobalDim, scalarOrList); the "
     "generated functions are proved equal to the model functions (generated_*_eq_model*, parameter_generated_eq_model)",
-    "hand-written model lean/GlotaranModel/C05.lean of irf.py (parameter of the four Gaussian IRF items, "
-    "is_index_dependent, calculate, calculate_dispersion), decay_matrix_gaussian_irf.py (both kernels) and "
-    "util.py (index_dependent, decay_matrix_implementation_index_dependent / _independent, "
-    "calculate_decay_matrix_no_irf, the A-matrix product of calculate_matrix), tied by differential execution only",
+    "hand-written model lean/GlotaranModel/C05.lean; since the method-level translation every function of it that has a source "
+    "counterpart is proved equal to a regenerated one, except: the skeleton of IrfSpectralMultiGaussian.parameter around the "
+    "regenerated dispersion loops (parameter_generated_eq_model covers the in-domain path), and kernelGuard / Term.finite (what numba "
+    "and numpy do on a division by zero: observed by differential execution)",
     "mpmath 1.3 (exp, erf, erfc, sqrt at 50 digits) as evaluator of the model's terms; numpy's Gauss-Legendre "
     "nodes and exp for the quadrature oracle",
     "scipy.special.erf / erfcx and the numba compilation of the kernels (observed through the comparison, not proved)",
@@ -58,13 +69,22 @@ ASSUMPTIONS = [
     "theorems are over the reals with erf defined as (2/sqrt pi) * integral_0^x exp(-s^2); IEEE rounding, "
     "underflow and overflow of the kernels are observed (relative 1e-11 of the term's forward-error scale, "
     "absolute floor 1e-300), not proved",
-    "the convolution theorems need a positive width; a zero width (non-finite beta), a zero sum of scales with "
-    "normalize, an empty global axis and 1e3/0 on the axis are outside the model (driver answers unmodelled)",
+    "the convolution theorems need a positive width; what the code does outside is modelled where it is well defined: a zero width "
+    "under an index-independent IRF raises ZeroDivisionError (zero_width_raises_partial), normalize with scales summing to zero "
+    "raises the non-finite ValueError (zero_scale_sum_never_a_matrix), an index-dependent IRF on an empty global axis raises numba's "
+    "ValueError; still outside the model (driver answers unmodelled): a zero width at some index of an index-dependent IRF (numba "
+    "loses or converts the exception inside prange: known finding silent-matrix:zero-width) and 1e3/0 on the axis with dispersion "
+    "coefficients (infinite dispersion: zero slice or non-finite ValueError, observed only)",
     "back-sweep is modelled as coded and compared, but the property statement (and the convolution theorems) "
     "are for back-sweep off",
     "the generated-equals-model theorems are statements over the reals for arrays of any length run on np.zeros; the kernels' "
     "`<` / abs on doubles are read as the real order / absolute value (no NaN), numba's unchecked indexing as 'one width and one "
-    "scale per centre' (hypothesis of generated_kernel_eq_model_on_index, discharged by parameter_lengths_agree in the glue theorems)",
+    "scale per centre' (hypothesis of generated_kernel_eq_model_on_index, discharged by parameter_lengths_agree in the glue theorems); "
+    "generated_calculate_matrix_eq_model holds for every finiteness predicate on the reals",
+    "method-level translation: a Parameter and its value are the same rational, a single centre / width is a list of one "
+    "(`x if isinstance(x, list) else [x]`, np.asarray and `[p.value for p in ps]` are the identity), the megacomplex's rates and "
+    "A-matrix are inputs, xarray's dimension check is `onGlobalDim`; retrieve_irf is translated for a Gaussian IRF and a dataset "
+    "without an `irf` variable (its guard is matched, not translated)",
     "the exact branch decision (d < -sqrt 2 on rationals) may differ from the double comparison within rounding of "
     "the switch-over point; thresh_decision_sound + branches_agree make the choice irrelevant for the value",
 ]
@@ -78,7 +98,9 @@ RULE = (
     "centre incl. the switch-over (t - c)/w - k w = -sqrt 2 hit within 1e-9 and exactly, 1-3 Gaussians, normalise "
     "on/off, distinct shifts per index, dispersion of order 0-3 in wavelength or reciprocal wavenumber on irregular "
     "axes, parallel / sequential / general decay megacomplex with 1-3 rates; malformed stream (counts that do not "
-    "match). kernel stream: direct numba kernel incl. back-sweep and negative widths. non-trivial = IRF present with "
+    "match) and refused specifications (a zero width, normalize with scales summing exactly to zero, an empty global axis, "
+    "each also with an empty time axis). kernel stream: direct numba kernel incl. back-sweep and negative widths. result stream: "
+    "optimize() with one evaluation on shifted / dispersed IRFs, the reported irf trace against the specification. non-trivial = IRF present with "
     "either >= 2 global indices with distinct effective parameters or >= 2 Gaussians or a time on each side of the "
     "switch-over; distinct = distinct (specification, axes) pairs"
 )
@@ -88,22 +110,31 @@ SQRT2 = math.sqrt(2.0)
 GEN_FILE = core.LEAN / "GlotaranModel" / "Generated" / "C05Fns.lean"
 
 
+GEN_IRF_FILE = core.LEAN / "GlotaranModel" / "Generated" / "C05Irf.lean"
+
+
 def generate(ck):
     """regenerate lean/GlotaranModel/Generated/C05Fns.lean (function-level translation of the kernels, their glue and
-    the IRF parameter functions) from the source text of VERIF_REPO; written only when its content changes"""
-    text, table = TR.render(core.REPO)
-    GEN_FILE.parent.mkdir(parents=True, exist_ok=True)
-    if not GEN_FILE.exists() or GEN_FILE.read_text() != text:
-        GEN_FILE.write_text(text)
-    for row in table:
-        ck.count("generated:" + ("translated" if row["status"] == "translated" else "untranslatable"))
-    return [{
-        "table": "functions of lean/GlotaranModel/Generated/C05Fns.lean (ast -> Lean, harness/props/_c05_translate.py)",
-        "source": [TR.KERNEL_FILE, TR.UTIL_FILE, TR.IRF_FILE],
-        "source_sha1": TR.source_sha1(core.REPO),
-        "sha1": hashlib.sha1(text.encode()).hexdigest(),
-        "functions": table,
-    }]
+    the dispersion formulas) and Generated/C05Irf.lean (method-level translation of IrfMultiGaussian.parameter / calculate /
+    calculate_dispersion, util.index_dependent / calculate_matrix / retrieve_irf) from the source text of VERIF_REPO; each
+    file is written only when its content changes"""
+    out = []
+    for path, render, what in ((GEN_FILE, TR.render, "kernels, glue, dispersion formulas"),
+                               (GEN_IRF_FILE, TR.render_irf, "parameter / calculate / calculate_matrix / retrieve_irf")):
+        text, table = render(core.REPO)
+        path.parent.mkdir(parents=True, exist_ok=True)
+        if not path.exists() or path.read_text() != text:
+            path.write_text(text)
+        for row in table:
+            ck.count("generated:" + ("translated" if row["status"] == "translated" else "untranslatable"))
+        out.append({
+            "table": f"functions of lean/GlotaranModel/Generated/{path.name} ({what}; ast -> Lean, harness/props/_c05_translate.py)",
+            "source": [TR.KERNEL_FILE, TR.UTIL_FILE, TR.IRF_FILE],
+            "source_sha1": TR.source_sha1(core.REPO),
+            "sha1": hashlib.sha1(text.encode()).hexdigest(),
+            "functions": table,
+        })
+    return out
 
 
 # ------------------------------------------------------------------------------------------
@@ -512,10 +543,24 @@ def oracle_matrix(ck, q, irf, mc, axis, times, mat, payload, budget):
                      dict(payload, observed=f"matrix of shape {mat.shape}", required="ModelError"))
         return
     gss = [L.effective_gaussians(irf, gi, axis)[0] for gi in idxs]
+    if dep and not axis:
+        ck.count("oracle:empty-global-axis:" + ("raises" if isinstance(mat, str) else "matrix"))   # nothing to compare either way
+        return
+    nonempty = len(times) > 0 and len(mc["rates"]) > 0
+    for reason, bad in (("zero-width", any(w == 0 for gs in gss for _, w, _ in gs)),
+                        ("zero-scale-sum", irf["normalize"] and any(sum(s for _, _, s in gs) == 0 for gs in gss))):
+        # the convolution with a Gaussian of width 0 / a division by a zero sum of scales is not defined: the statement
+        # demands that no (non-empty) matrix is silently produced
+        if bad:
+            ck.oracle_evals += 1
+            ck.count(f"oracle:{reason}:" + ("refused" if isinstance(mat, str) else "empty-matrix" if not nonempty else "matrix"))
+            if nonempty and not isinstance(mat, str):
+                ck.violation(f"silent-matrix:{reason}",
+                             f"a matrix is produced although the IRF has a {reason.replace('-', ' ')} (the convolution is undefined)",
+                             dict(payload, observed=f"matrix of shape {mat.shape}", required="an exception"))
+            return
     if any(w <= 0 for gs in gss for _, w, _ in gs) or irf["backsweep"]:
         ck.count("oracle:skipped:nonpositive-width-or-backsweep")
-        return
-    if irf["normalize"] and any(sum(s for _, _, s in gs) == 0 for gs in gss):
         return
     if isinstance(mat, str):
         ck.violation(f"matrix-raises:{mat}", "calculate_matrix raises inside the documented domain", dict(payload, observed=mat))
@@ -548,6 +593,67 @@ def oracle_matrix(ck, q, irf, mc, axis, times, mat, payload, budget):
                          dict(payload, index=[ii, it, ic], global_index=idxs[ii], rate=mc["rates"][ic], time=times[it],
                               observed=repr(got), required=mp.nstr(want, 17)))
             return
+
+
+def oracle_reported_irf(ck, q, irf, axis, times, got_irf, payload):
+    """the `irf` variable of a result dataset must be the Gaussian mixture the matrix of global index 0 was convolved with
+    (effective centre = centre - shift_0 + dispersion_0, effective width, scale; each Gaussian in peak-normalised form) —
+    from the specification alone (L.effective_gaussians), evaluated with mpmath"""
+    if not axis:
+        return
+    gs, reason = L.effective_gaussians(irf, 0, axis)
+    if gs is None or any(w == 0 for _, w, _ in gs):
+        return
+    mp = q.mp
+    fr = lambda x: mp.mpf(x.numerator) / mp.mpf(x.denominator)  # noqa: E731
+    delta = 8 * 2.0 ** -53 * max(L.centre_magnitude(irf, axis), 1e-300)
+    for it, t in enumerate(times):
+        tf = Fraction(float(t))
+        want = mag = slope = mp.mpf(0)
+        for c, w, sc in gs:
+            v = fr(sc) * mp.exp(-(fr(tf) - fr(c)) ** 2 / (2 * fr(w) ** 2))
+            want += v
+            mag += abs(v)
+            slope += abs(v) * abs(fr(tf) - fr(c)) / fr(w) ** 2
+        got = float(got_irf[it])
+        ck.oracle_evals += 1
+        if not (np.isfinite(got) and abs(mp.mpf(got) - want) <= 1e-9 * mag + 2 * delta * slope + 1e-300):
+            ck.violation("reported-irf-ne-used-irf",
+                         "the reported IRF trace (result variable `irf`) is not the Gaussian mixture the matrix of global index 0 "
+                         "was convolved with (centre - shift_0 + dispersion_0, width_0, scale)",
+                         dict(payload, time=float(t), observed=repr(got), required=mp.nstr(want, 17)))
+            return
+
+
+def oracle_reported_locations(ck, irf, axis, got, payload):
+    """exact regime: `irf_shift[i]` is the first declared centre minus the shift of index i; `irf_center_location[g][i]` is the
+    centre of Gaussian g at index i with its dispersion polynomial (before the shift is subtracted) and `center_dispersion_1`
+    is its first row — from the specification alone (L.effective_gaussians)"""
+    F = lambda v: Fraction(float(v))  # noqa: E731
+    if "irf_shift" in got and irf["shift"] is not None and len(irf["shift"]) == len(axis):
+        want = [F(irf["center"][0]) - F(x) for x in irf["shift"]]
+        ck.oracle_evals += 1
+        if [F(x) for x in np.ravel(got["irf_shift"])] != want:
+            ck.violation("reported-irf-shift-differs", "result variable irf_shift is not centre[0] - shift_i per global index",
+                         dict(payload, observed=[float(x) for x in np.ravel(got["irf_shift"])], required=[float(x) for x in want]))
+    if "irf_center_location" in got:
+        rows = []
+        for gi in range(len(axis)):
+            gs, _ = L.effective_gaussians(irf, gi, axis)
+            if gs is None:
+                return
+            sh = F(irf["shift"][gi]) if irf["shift"] is not None else Fraction(0)
+            rows.append([c + sh for c, _, _ in gs])
+        want = [list(r) for r in zip(*rows)]
+        loc = np.asarray(got["irf_center_location"], dtype=float)
+        ck.oracle_evals += 1
+        if loc.ndim != 2 or [[F(x) for x in r] for r in loc] != want:
+            ck.violation("reported-center-location-differs",
+                         "result variable irf_center_location[g][i] is not the centre of Gaussian g plus the dispersion polynomial of index i",
+                         dict(payload, observed=loc.tolist(), required=[[float(x) for x in r] for r in want]))
+        elif "center_dispersion_1" in got and [F(x) for x in np.ravel(got["center_dispersion_1"])] != want[0]:
+            ck.violation("reported-center-dispersion-1-differs", "center_dispersion_1 is not the first row of irf_center_location",
+                         dict(payload, observed=[float(x) for x in np.ravel(got["center_dispersion_1"])], required=[float(x) for x in want[0]]))
 
 
 def run_matrix_cases(ck, cases, tag="matrix", oracle_budget=24):
@@ -717,8 +823,10 @@ def run_retrieve_cases(ck, cases, tag="retrieve"):
         if any(not np.all(np.isfinite(v)) for v in got.values()):
             ck.count(f"{tag}:non-finite")
             continue
+        oracle_reported_irf(ck, L.Quad(), irf, axis, times, got["irf"], payload)
+        oracle_reported_locations(ck, irf, axis, got, payload)
         t = L.parse_terms("[" + ",".join(ans[3:].split(" ")) + "]")
-        irf_terms, centre, width, shift, loc = t
+        irf_terms, centre, width, shift, loc, cd1 = t
         problems = []
         vals = te.matrix(irf_terms)
         if len(vals) != len(got["irf"]) or any(not L.close(te.mp, float(a), v[0], v[1]) for v, a in zip(vals, got["irf"])):
@@ -737,7 +845,7 @@ def run_retrieve_cases(ck, cases, tag="retrieve"):
             a = got["irf_center_location"]
             if a.ndim != 2 or [ex(r) for r in a] != [fr(r) for r in loc]:
                 problems.append("irf_center_location")
-            elif ex(got["center_dispersion_1"]) != fr(loc[0]):
+            elif cd1 == "none" or ex(got["center_dispersion_1"]) != fr(cd1):
                 problems.append("center_dispersion_1")
         if problems:
             ck.disagree(f"{tag}-differs", "retrieve_irf: result variables differ from the model: " + ",".join(problems),
@@ -798,10 +906,14 @@ def run_result_cases(ck, cases, tag="result"):
             continue
         compare_matrix(ck, te, ans, got["matrix"], payload, tag, ans_pert=ans_pert)
         oracle_matrix(ck, q, irf, mc, axis, times, got["matrix"], payload, 12)
+        if "irf" in got:
+            oracle_reported_irf(ck, q, irf, axis, times, got["irf"], payload)
+            ck.count(f"{tag}:reported-irf:" + ("shifted" if irf["shift"] is not None and irf["shift"][0] != 0 else "unshifted")
+                     + (":dispersed" if irf["type"] in L.SPECTRAL and irf["center_disp"] else ""))
         if not ans_ret.startswith("ok "):
             ck.disagree(f"{tag}-retrieve", "model reports an error for the IRF result variables", dict(payload, model=ans_ret[:200]))
             continue
-        irf_terms, _, _, shift, loc = L.parse_terms("[" + ",".join(ans_ret[3:].split(" ")) + "]")
+        irf_terms, _, _, shift, loc, _ = L.parse_terms("[" + ",".join(ans_ret[3:].split(" ")) + "]")
         problems = []
         vals = te.matrix(irf_terms)
         if "irf" not in got or len(vals) != len(got["irf"]) or \
@@ -908,7 +1020,49 @@ def fixed_cases():
                 [-0.1, -0.001, 0.0, 0.001, 1.0]))
     # no IRF
     out.append((None, {"kind": "general", "rates": [2.0, 0.5]}, [1.0, 2.0], [-1.5, 0.0, 0.5, 1.0, 4.0]))
+    # what the compiled code refuses: a zero width (index-independent: ZeroDivisionError, per index: SystemError; nothing when no
+    # loop iteration runs), normalize with scales summing to zero (ValueError non-finite; nothing for an empty matrix), an
+    # index-dependent IRF on an empty global axis (ValueError of numba)
+    out.append((g(center=[1.0], width=[0.0]), par2, [1.0], [0.0, 1.0, 2.0]))
+    out.append((g(center=[1.0], width=[0.0]), par2, [1.0], [1.0]))
+    out.append((g(center=[1.0], width=[0.0]), par2, [1.0], []))
+    out.append((g(center=[1.0], width=[0.5, 0.0], normalize=False), par2, [1.0], [0.0, 1.0, 2.0]))
+    out.append((g(center=[1.0], width=[0.0], shift=[0.0, 1.0]), par2, [1.0, 2.0], [0.0, 1.0]))
+    out.append((g(type="spectral-multi-gaussian", center=[0.0], width=[0.5], dispersion_center=500.0, width_disp=[-0.5]), par2,
+                [500.0, 600.0], [0.0, 1.0]))
+    out.append((g(center=[1.0, 2.0], width=[0.5], scale=[1.0, -1.0]), par2, [1.0], [0.0, 1.0, 2.0]))
+    out.append((g(center=[1.0, 2.0], width=[0.5], scale=[1.0, -1.0]), par2, [1.0], []))
+    out.append((g(center=[1.0, 2.0], width=[0.5], scale=[1.0, -1.0], normalize=False), par2, [1.0], [0.0, 1.0, 2.0]))
+    out.append((g(center=[1.0, 2.0], width=[0.5], scale=[0.5, -0.5], shift=[0.0, 0.5]), par2, [1.0, 2.0], [0.0, 1.0, 2.0]))
+    out.append((g(center=[1.0], width=[0.5], shift=[]), par2, [], [0.0, 1.0, 2.0]))
+    out.append((g(type="spectral-gaussian", center=[1.0], width=[0.5], dispersion_center=500.0, center_disp=[0.1]), par2, [], [0.0, 1.0]))
+    out.append((g(center=[1.0], width=[0.5]), par2, [], [0.0, 1.0, 2.0]))
     return out
+
+
+def degenerate(rng, irf, axis, times):
+    """one of the refused specifications, made from a valid one"""
+    irf = dict(irf)
+    r = rng.random()
+    if r < 0.4:
+        irf["width"] = list(irf["width"])
+        irf["width"][rng.randrange(len(irf["width"]))] = 0.0
+        irf["width_disp"] = []
+        kind = "zero-width"
+    elif r < 0.8:
+        n = max(len(irf["center"]), len(irf["width"]))
+        a = logu(rng, 0.2, 5.0)
+        irf["scale"] = {1: [0.0], 2: [a, -a], 3: [a, a, -2 * a]}[n]      # exact sum 0 (2a is exact in doubles)
+        irf["normalize"] = True
+        kind = "zero-scale-sum"
+    else:
+        axis = []
+        if irf["shift"] is not None:
+            irf["shift"] = []
+        kind = "empty-axis"
+    if rng.random() < 0.15:
+        times = []
+    return irf, axis, times, kind
 
 
 def run(ck):
@@ -934,6 +1088,9 @@ def run(ck):
             c0, T = irf["center"][0], irf["backsweep_period"]
             times = [c0 + max(-T, min(T, t - c0)) for t in times]
         ck.count("matrix:switch-over-times", sw)
+        if i % 14 == 5 and not irf["backsweep"]:
+            irf, axis, times, kind = degenerate(rng, irf, axis, times)
+            ck.count(f"matrix:degenerate:{kind}")
         cases.append((irf, mc, axis, times))
     cases.append((None, gen_mc(rng), [1.0], [0.0, 1.0, 2.5]))
     for _ in range(3):       # no IRF: times on both sides of zero (the no-IRF kernel is exp(-k t) for every t, as coded)
